@@ -73,11 +73,37 @@ type c19Access struct {
 	write  bool
 	held   c19Mask
 	atomic bool
+	// locks of the CALLER that this function has released (non-deferred Unlock of a lock it did not take) before this point
+	dropped c19Mask
+}
+
+// A read-modify-write pair that must sit inside ONE critical section: inside Func, the call of Read and the call
+// of Write must both hold Lock, acquired by the same Lock() (or both inherited from the caller, never released).
+type c19RMW struct {
+	Name  string // variable name in the table
+	Func  string // the function containing the pair
+	Read  string // callee that reads the record
+	Write string // callee that writes it back
+	Lock  string
+}
+
+var c19RMWs = []c19RMW{
+	// the stored record of a STABLE block: setConfirm reads it from Beansdb, appends the confirms, writes it back
+	{"Beansdb.blockRecord", "ChainDatabase.setConfirm", "ChainDatabase.getBlock4DB", "ChainDatabase.setBlock2DB", "ChainDatabase.RW"},
+}
+
+type c19RMWAccess struct {
+	spec    int
+	write   bool
+	held    c19Mask
+	dropped c19Mask
+	sec     token.Pos // position of the Lock() statement that opened the section (0 = not locally held)
 }
 
 type c19Call struct {
 	callees []*c19Fn
 	held    c19Mask
+	dropped c19Mask
 	// unresolved description (interface call resolved after all packages are loaded)
 	iface  *types.Interface
 	method string
@@ -96,6 +122,7 @@ type c19Fn struct {
 	nclos    int
 	// every lock this function's own body takes (anywhere, nested blocks included)
 	locksTaken c19Mask
+	rmw        []c19RMWAccess
 }
 
 type c19Spawn struct {
@@ -367,6 +394,10 @@ type c19Walker struct {
 	s  *c19Scan
 	p  *c19Pkg
 	fn *c19Fn
+	// caller's locks released so far in this function (source order, monotone = conservative)
+	dropped c19Mask
+	// per lock bit: the Lock() statement that opened the section currently held locally
+	lastLock [64]token.Pos
 }
 
 func recvTypeName(fd *ast.FuncDecl) string {
@@ -465,10 +496,21 @@ func (w *c19Walker) lockCall(e ast.Expr) (c19Mask, string) {
 }
 
 func (w *c19Walker) stmts(list []ast.Stmt, held c19Mask) c19Mask {
+	saved := w.lastLock // what a nested list does to the sections is dropped together with its lock set
 	for _, st := range list {
 		held = w.stmt(st, held)
 	}
+	w.lastLock = saved
 	return held
+}
+
+func bitIndex(m c19Mask) int {
+	for i := 0; i < 64; i++ {
+		if m == 1<<uint(i) {
+			return i
+		}
+	}
+	return -1
 }
 
 // stmt returns the lock set held after the statement (only top-level lock/unlock statements of a
@@ -480,7 +522,13 @@ func (w *c19Walker) stmt(st ast.Stmt, held c19Mask) c19Mask {
 		if bit, m := w.lockCall(st.X); m != "" {
 			if m == "Lock" || m == "RLock" {
 				w.fn.locksTaken |= bit
+				if i := bitIndex(bit); i >= 0 {
+					w.lastLock[i] = st.Pos()
+				}
 				return held | bit
+			}
+			if held&bit == 0 {
+				w.dropped |= bit // releases a lock it did not take here: the caller's
 			}
 			return held &^ bit
 		}
@@ -694,12 +742,28 @@ func (w *c19Walker) expr(e ast.Expr, held c19Mask, wr map[ast.Node]bool) {
 				w.markWrite(x.Args[0], wr)
 			}
 			if c := w.resolve(x, held); c != nil {
+				c.dropped = w.dropped
 				w.fn.calls = append(w.fn.calls, c)
+				if c.static != nil {
+					callee := c19FuncDisplayName(c.static)
+					for si, spec := range c19RMWs {
+						if w.fn.name != spec.Func || (callee != spec.Read && callee != spec.Write) {
+							continue
+						}
+						ra := c19RMWAccess{spec: si, write: callee == spec.Write, held: held, dropped: w.dropped}
+						if bit := w.s.lockBit(spec.Lock); held&bit != 0 {
+							if i := bitIndex(bit); i >= 0 {
+								ra.sec = w.lastLock[i]
+							}
+						}
+						w.fn.rmw = append(w.fn.rmw, ra)
+					}
+				}
 			}
 			return true
 		case *ast.SelectorExpr:
 			if i, ok := w.tracked(x); ok {
-				a := c19Access{v: i, held: held, write: wr != nil && wr[x]}
+				a := c19Access{v: i, held: held, write: wr != nil && wr[x], dropped: w.dropped}
 				w.s.noteAccess(x.Pos(), i)
 				if m, ok := atomicBase[x]; ok {
 					a.atomic = true
@@ -711,7 +775,7 @@ func (w *c19Walker) expr(e ast.Expr, held c19Mask, wr map[ast.Node]bool) {
 		case *ast.Ident:
 			if i, ok := w.tracked(x); ok && c19Vars[i].Type == "" {
 				w.s.noteAccess(x.Pos(), i)
-				w.fn.accesses = append(w.fn.accesses, c19Access{v: i, held: held, write: wr != nil && wr[x]})
+				w.fn.accesses = append(w.fn.accesses, c19Access{v: i, held: held, write: wr != nil && wr[x], dropped: w.dropped})
 			}
 		}
 		return true
@@ -840,7 +904,7 @@ func (s *c19Scan) reach(entry *c19Fn) map[*c19Fn]c19Mask {
 		h := held[f]
 		for _, c := range f.calls {
 			for _, t := range c.callees {
-				nh := h | c.held
+				nh := (h &^ c.dropped) | c.held
 				if old, ok := held[t]; !ok {
 					held[t] = nh
 					work = append(work, t)
@@ -976,7 +1040,7 @@ func (s *c19Scan) rows() ([]c19Row, map[string]string) {
 		for fn, h := range held {
 			for _, a := range fn.accesses {
 				covered[fn] = true
-				all = append(all, acc{k{a.v, fn.name, a.write, e.name}, h | a.held, a.atomic})
+				all = append(all, acc{k{a.v, fn.name, a.write, e.name}, (h &^ a.dropped) | a.held, a.atomic})
 			}
 		}
 	}
@@ -1046,6 +1110,147 @@ func (s *c19Scan) rows() ([]c19Row, map[string]string) {
 	return out, guards
 }
 
+func c19FuncDisplayName(f *types.Func) string {
+	if sig, ok := f.Type().(*types.Signature); ok && sig.Recv() != nil {
+		t := sig.Recv().Type()
+		if p, ok := t.(*types.Pointer); ok {
+			t = p.Elem()
+		}
+		if n, ok := t.(*types.Named); ok {
+			return n.Obj().Name() + "." + f.Name()
+		}
+	}
+	if f.Pkg() != nil {
+		return f.Pkg().Name() + "." + f.Name()
+	}
+	return f.Name()
+}
+
+// rmwRows: the read row is `held` when Lock is held at the read; the write row is `held` when Lock is held at the
+// write AND it is the same critical section as every read of the pair (same Lock() statement, or both inherited
+// from the caller and not released in between).
+func (s *c19Scan) rmwRows() ([]c19Row, map[string]string, error) {
+	var out []c19Row
+	guards := map[string]string{}
+	for si, spec := range c19RMWs {
+		var fn *c19Fn
+		for _, f := range s.all {
+			if f.name == spec.Func && inList(f.pkg, c19Anchored) {
+				fn = f
+			}
+		}
+		nr, nw := 0, 0
+		if fn != nil {
+			for _, ra := range fn.rmw {
+				if ra.spec == si {
+					if ra.write {
+						nw++
+					} else {
+						nr++
+					}
+				}
+			}
+		}
+		if fn == nil || nr == 0 || nw == 0 {
+			return nil, nil, fmt.Errorf("read-modify-write pair %s: %s with calls of %s and %s not found", spec.Name, spec.Func, spec.Read, spec.Write)
+		}
+		bit := s.lockBit(spec.Lock)
+		if bit == 0 {
+			return nil, nil, fmt.Errorf("read-modify-write pair %s: lock %s not found", spec.Name, spec.Lock)
+		}
+		allHeld := true
+		type k struct {
+			write bool
+			entry string
+		}
+		agg := map[k]bool{}
+		emit := func(entry string, h c19Mask) {
+			// section of an access: >0 local Lock() statement, -1 inherited from the caller, 0 not held
+			sec := func(ra c19RMWAccess) int64 {
+				if ra.held&bit != 0 {
+					return int64(ra.sec)
+				}
+				if (h&^ra.dropped)&bit != 0 {
+					return -1
+				}
+				return 0
+			}
+			for _, ra := range fn.rmw {
+				if ra.spec != si {
+					continue
+				}
+				ok := sec(ra) != 0
+				if ra.write && ok {
+					for _, rb := range fn.rmw {
+						if rb.spec == si && !rb.write && sec(rb) != sec(ra) {
+							ok = false // lock released (or re-taken) between the read and the write back
+						}
+					}
+				}
+				key := k{ra.write, entry}
+				if old, seen := agg[key]; seen {
+					agg[key] = old && ok
+				} else {
+					agg[key] = ok
+				}
+			}
+		}
+		reached := false
+		for _, e := range s.entries() {
+			if h, ok := s.reach(e.fn)[fn]; ok {
+				reached = true
+				emit(e.name, h)
+			}
+		}
+		if !reached {
+			emit("-", 0)
+		}
+		for key, held := range agg {
+			rw := "r"
+			if key.write {
+				rw = "w"
+			}
+			if !held && key.entry != "-" {
+				allHeld = false
+			}
+			out = append(out, c19Row{spec.Name, spec.Func, rw, held, key.entry})
+		}
+		if allHeld {
+			guards[spec.Name] = spec.Lock
+		} else {
+			guards[spec.Name] = "none"
+		}
+	}
+	return out, guards, nil
+}
+
+// c19AllVarNames: the shared variables of c19Vars followed by the read-modify-write records of c19RMWs
+func c19AllVarNames() []string {
+	var out []string
+	for _, v := range c19Vars {
+		out = append(out, v.Name)
+	}
+	for _, r := range c19RMWs {
+		out = append(out, r.Name)
+	}
+	return out
+}
+
+// c19NominalLock: the lock a finding about variable `name` talks about
+func c19NominalLock(name string) string {
+	for i, v := range c19Vars {
+		if v.Name == name && c19LastScan != nil {
+			return c19LastScan.nominal[i]
+		}
+	}
+	for _, r := range c19RMWs {
+		if r.Name == name {
+			return r.Lock + " (one critical section from the read to the write back)"
+		}
+	}
+	return ""
+}
+
 // c19LastScan keeps the last successful scan (nominal locks, access positions) for the other parts of hx c19
 var c19LastScan *c19Scan
 
@@ -1062,6 +1267,15 @@ func c19ScanRepo(repo string) ([]c19Row, map[string]string, error) {
 	s.collect()
 	s.link()
 	rows, guards := s.rows()
+	rrows, rguards, err := s.rmwRows()
+	if err != nil {
+		return nil, nil, err
+	}
+	rows = append(rows, rrows...)
+	sort.Slice(rows, func(i, j int) bool { return rows[i].String() < rows[j].String() })
+	for k, v := range rguards {
+		guards[k] = v
+	}
 	c19LastScan = s
 	return rows, guards, nil
 }
